@@ -255,6 +255,29 @@ def shot_dark_generator(repo):
             'def darkUsesFpn {K : Type} [LT K] [DecidableLT K] [Zero K] (fpn_factor : K) : Bool := decide (0 < fpn_factor)\n',
             '/-- `dark_current`: argument of `np.floor` (per pixel; `ones` = entry of `np.ones(shape)`, `fpn` = the draw or the constant 1) -/\n'
             f'def darkFloorArg {{K : Type}} [Mul K] (rate ones fpn : K) : K := {dx(v.args[0])}\n']
-    return '\n'.join(out), [f'poisson guards {pg} gaussian guards {gg} dark {dx(v.args[0])}']
+    # --- read_noise: img = np.asarray(img); rng = default_rng(seed); noise = rng.normal(loc=L, scale=S, size=img.shape); return img ± noise
+    if 'read_noise' not in fns: raise Refuse('read_noise not found')
+    rb = [st for st in fns['read_noise'].body if not (isinstance(st, ast.Expr) and isinstance(st.value, ast.Constant))]
+    if [ast.unparse(st) for st in rb[:2]] != ['img = np.asarray(img)', 'rng = np.random.default_rng(seed)'] or len(rb) != 4: raise Refuse('read_noise body')
+    nz, rt = rb[2], rb[3]
+    if not (isinstance(nz, ast.Assign) and ast.unparse(nz.targets[0]) == 'noise' and isinstance(nz.value, ast.Call) and ast.unparse(nz.value.func) == 'rng.normal' and not nz.value.args): raise Refuse('read_noise draw')
+    kw = {k.arg: k.value for k in nz.value.keywords}
+    if sorted(kw) != ['loc', 'scale', 'size'] or ast.unparse(kw['size']) != 'img.shape': raise Refuse(f'read_noise draw arguments: {ast.unparse(nz.value)}')
+    def rx(e):
+        src = ast.unparse(e)
+        if src in ('electrons', 'img', 'noise'): return src
+        if isinstance(e, ast.Constant) and isinstance(e.value, (int, float)):
+            if e.value == 0: return '0'
+            return _lit(src)
+        if isinstance(e, ast.BinOp):
+            op = {ast.Add: '+', ast.Sub: '-', ast.Mult: '*'}.get(type(e.op))
+            if op is None: raise Refuse(f'read_noise: operator in {src}')
+            return f'({rx(e.left)} {op} {rx(e.right)})'
+        raise Refuse(f'read_noise: expression not understood: {src}')
+    if not isinstance(rt, ast.Return): raise Refuse('read_noise return')
+    out += ['/-- `read_noise`: the returned pixel, `noise` being the draw `rng.normal(loc, scale, img.shape)` = `loc + scale·z` of that pixel (`z` its standard-normal draw) -/\n'
+            'def readNoiseFrame {K : Type} [Zero K] [Add K] [Sub K] [Mul K] (lit : Nat → Bool → Nat → K) (img z electrons : K) : K :=\n'
+            f'  let noise := {rx(kw["loc"])} + {rx(kw["scale"])} * z\n  {rx(rt.value)}\n']
+    return '\n'.join(out), [f'poisson guards {pg} gaussian guards {gg} dark {dx(v.args[0])} read {rx(rt.value)} loc {rx(kw["loc"])} scale {rx(kw["scale"])}']
 
 MODULES.append({'name': 'ShotDark', 'src': 'lentil/detector.py', 'generator': _robust(shot_dark_generator, 'shot_noise guards / dark_current frame'), 'props': ['C18']})
